@@ -406,13 +406,19 @@ fn gen_case(rng: &mut Rng, n: usize) -> Case {
                 let names: Vec<String> = (0..k).map(|i| t(&format!("eq@x{i}"))).collect();
                 let pick = rng.below(k);
                 let types = t(&format!("Te@ ::= ENUMERATED {{ {} }}\n", names.iter().enumerate().map(|(i, n)| if i % 2 == 1 { format!("{n}({})", 10 + i) } else { n.clone() }).collect::<Vec<_>>().join(", ")));
-                Case { types, ty: t("Te@"), val: names[pick].clone(), expected: AV::Enum(names[pick].clone()), trailing_zeros_insignificant: false, as_default: true, form: "enumerated" }
+                // X.680 20.x: inside value notation governed by the ENUMERATED type the identifier denotes the enumeral, even
+                // if a value assignment of the same spelling exists
+                let shadow = rng.chance(1, 3);
+                let types = if shadow { format!("{types}{} INTEGER ::= {}\n", names[pick], 700 + pick) } else { types };
+                Case { types, ty: t("Te@"), val: names[pick].clone(), expected: AV::Enum(names[pick].clone()), trailing_zeros_insignificant: false, as_default: true, form: if shadow { "enumerated/same-named-value-exists" } else { "enumerated" } }
             } else {
                 let k = 1 + rng.below(4);
                 let nn: Vec<(String, i128)> = (0..k).map(|i| (t(&format!("nq@x{i}")), rng.range(-50, 500) as i128)).collect();
                 let pick = rng.below(k);
                 let types = t(&format!("Tn@ ::= INTEGER {{ {} }}\n", nn.iter().map(|(n, v)| format!("{n}({v})")).collect::<Vec<_>>().join(", ")));
-                Case { types, ty: t("Tn@"), val: nn[pick].0.clone(), expected: AV::Int(nn[pick].1), trailing_zeros_insignificant: false, as_default: true, form: "integer/named-number" }
+                let shadow = rng.chance(1, 3);
+                let types = if shadow { format!("{types}{} INTEGER ::= {}\n", nn[pick].0, nn[pick].1 + 1000) } else { types };
+                Case { types, ty: t("Tn@"), val: nn[pick].0.clone(), expected: AV::Int(nn[pick].1), trailing_zeros_insignificant: false, as_default: true, form: if shadow { "integer/named-number/same-named-value-exists" } else { "integer/named-number" } }
             }
         }
         11 | 12 => {
